@@ -393,13 +393,19 @@ def atomBytes : Step → Option Bytes
   | .vli v => encodeVli v
   | .slice b => some b
 
+/-- the steps that still have a byte to emit: leading empty slices (an empty string, an empty payload) are dropped -/
+def dropEmptySlices : List Step → List Step
+  | .slice [] :: rest => dropEmptySlices rest
+  | steps => steps
+
 /-- One call of `Encoder::encode` with `free = capacity - len` bytes available (the caller
     guarantees `capacity >= 4`).  Returns the bytes appended, the remaining steps and whether a step
     failed.  The loop runs while steps remain and `len + 4 <= capacity`, i.e. `4 <= free`. -/
 def encodeCall : List Step → Nat → Bytes × List Step × Bool
   | [], _ => ([], [], false)
   | s :: rest, free =>
-    if free < 4 then ([], s :: rest, false)
+    -- out of room: what remains is reported as unfinished only if it still has bytes to emit
+    if free < 4 then ([], dropEmptySlices (s :: rest), false)
     else match s with
       | .slice b =>
         -- `b.length ≤ free`, decided without walking the whole slice
